@@ -71,6 +71,17 @@ def _in_scc_calls(prog, body, comp):
     return out
 
 
+def closure_runs_under(prog, g, cb, entry_block):
+    """every place in g where the closure cb is invoked or handed to something that invokes it (`f(self)`,
+    `opt.map(|x| ..)`) is dominated by entry_block; False when there is no such place to be seen"""
+    sites = []
+    for (bb, t, c) in g.call_sites(lambda c: True):
+        for a in t.get("args", []):
+            if R.closure_id_of_operand(g, a) == cb.id:
+                sites.append(bb)
+    return bool(sites) and all(g.dominates(entry_block, bb) for bb in sites)
+
+
 def v_depth_guard(prog, comp, name, par):
     g = prog.body(par["guard_fn"])
     if g.id not in comp:
@@ -91,6 +102,10 @@ def v_depth_guard(prog, comp, name, par):
     # closures of g could also call into the SCC
     for cb in prog.closures_of(g):
         if _in_scc_calls(prog, cb, comp) or cb.id in comp:
+            # the dispatch may sit in a closure run by a scope guard (`context.one_level_deeper(|context| match ..)`):
+            # it is inside the guard when it only ever runs behind the Ok continuation
+            if cont and closure_runs_under(prog, g, cb, cont[0]):
+                continue
             return False, f"closure {cb.short} re-enters the SCC outside the guard"
     bad = [t.get("line") for (bb, t, c) in inner if not (cont and g.dominates(cont[0], bb))]
     if bad:
